@@ -59,16 +59,24 @@ func (*TumblingWindow).extractWindowDataLocked
   ensures batch: tw.currentSlot != nil && len(rowsIn(arr(old(tw.data)), len(old(tw.data)), *tw.currentSlot.Start, *tw.currentSlot.End, tw.currentSlot)) > 0 ==> result == rowsIn(arr(old(tw.data)), len(old(tw.data)), *tw.currentSlot.Start, *tw.currentSlot.End, tw.currentSlot)
   ensures kept: tw.currentSlot != nil && len(rowsIn(arr(old(tw.data)), len(old(tw.data)), *tw.currentSlot.Start, *tw.currentSlot.End, tw.currentSlot)) > 0 ==> tw.data == rowsOut(arr(old(tw.data)), len(old(tw.data)), *tw.currentSlot.Start, *tw.currentSlot.End)
   ensures empty: tw.currentSlot != nil && len(rowsIn(arr(old(tw.data)), len(old(tw.data)), *tw.currentSlot.Start, *tw.currentSlot.End, tw.currentSlot)) == 0 ==> len(result) == 0 && tw.data == old(tw.data)
+  ensures nothing-left-behind: tw.currentSlot != nil && rowsNotBefore(old(tw.data), *tw.currentSlot.Start) ==> rowsNotBefore(tw.data, *tw.currentSlot.End)
+  ensures never-grows: len(tw.data) <= len(old(tw.data))
+  loop 2 invariant len(newData) <= $i
   loop 1 invariant resultData == rowsIn(arr($s), $i, *tw.currentSlot.Start, *tw.currentSlot.End, tw.currentSlot)
   loop 2 invariant newData == rowsOut(arr($s), $i, *tw.currentSlot.Start, *tw.currentSlot.End)
+  loop 1 invariant len(resultData) == 0 ==> forall(k, 0, $i, !(*tw.currentSlot.Start <= $s[k].Timestamp && $s[k].Timestamp < *tw.currentSlot.End))
+  loop 2 invariant rowsNotBefore(tw.data, *tw.currentSlot.Start) ==> rowsNotBefore(newData, *tw.currentSlot.End)
 @*/
 
 /*@
 guarded_by Watermark.mu: currentWatermark, lastSentWatermark, maxEventTime, lastEventTime
 immutable Watermark: maxOutOfOrderness, idleTimeout
 monitor Watermark.mu inv wmInv
+monitor Watermark.mu rely wmRely
 
-pred wmInv(wm) := wm.lastSentWatermark <= wm.currentWatermark && wm.maxEventTime >= ZERO_T
+pred wmRely(wm) := wm.currentWatermark >= old(wm.currentWatermark)
+
+pred wmInv(wm) := wm.lastSentWatermark <= wm.currentWatermark && wm.maxEventTime >= ZERO_T && wm.currentWatermark >= ZERO_T
   && (wm.maxOutOfOrderness >= 0 && zero(wm.maxEventTime) ==> zero(wm.currentWatermark))
   && (wm.maxOutOfOrderness >= 0 && !zero(wm.maxEventTime) && wm.idleTimeout <= 0 ==> zero(wm.currentWatermark) || wm.currentWatermark <= wm.maxEventTime - wm.maxOutOfOrderness)
 
@@ -122,12 +130,17 @@ recfunc rowsFrom((a (Array Int S_types.Row)) (n Int) (lo Int)) Slice_S_types.Row
 guarded_by TumblingWindow.mu: data, currentSlot, initialized, triggeredWindows, callback
 immutable TumblingWindow: config, size
 monitor TumblingWindow.mu inv twInv
+monitor TumblingWindow.mu inv twNoStranded
 
 pred twInv(tw) := tw.size > 0
   && (tw.initialized ==> tw.currentSlot != nil)
+  && (!tw.initialized ==> len(tw.data) == 0)
   && (tw.currentSlot != nil ==> slotOK(tw.currentSlot, tw.size) && *tw.currentSlot.Start % tw.size == 0)
   && tw.triggeredWindows != nil
   && forallv(k, "", dom(tw.triggeredWindows, k) ==> tw.triggeredWindows[k] != nil && slotOK(tw.triggeredWindows[k].slot, tw.size))
+
+pred twNoStranded(tw) := tw.config.TimeCharacteristic == "EventTime" && tw.config.AllowedLateness <= 0 && tw.initialized && tw.currentSlot != nil ==> forall(i, 0, len(tw.data), tw.data[i].Timestamp >= *tw.currentSlot.Start)
+pred rowsNotBefore(d, b) := forall(i, 0, len(d), d[i].Timestamp >= b)
 
 extern extractTimestamp
   option pure
@@ -148,21 +161,25 @@ func (*TumblingWindow).extractLateUpdateDataLocked
   modifies tw.data, heap(triggeredWindowInfo.snapshotData)
   ensures late-batch: len(result) > 0 ==> result == rowsInFrom(stampAll(arr(old(tw.triggeredWindows[getWindowKey(tw, *slot.End)].snapshotData)), ite(dom(tw.triggeredWindows, getWindowKey(tw, *slot.End)), len(old(tw.triggeredWindows[getWindowKey(tw, *slot.End)].snapshotData)), 0), slot), arr(old(tw.data)), len(old(tw.data)), *slot.Start, *slot.End, slot)
   ensures evicted: tw.data == rowsOut(arr(old(tw.data)), len(old(tw.data)), *slot.Start, *slot.End)
+  ensures bound-preserved: tw.currentSlot != nil && rowsNotBefore(old(tw.data), *tw.currentSlot.Start) ==> rowsNotBefore(tw.data, *tw.currentSlot.Start)
+  ensures never-grows: len(tw.data) <= len(old(tw.data))
+  loop 2 invariant len(kept) <= $i
   ensures snapshot-updated: len(result) > 0 && dom(tw.triggeredWindows, getWindowKey(tw, *slot.End)) ==> len(tw.triggeredWindows[getWindowKey(tw, *slot.End)].snapshotData) == len(result) && forall(k, 0, len(result), tw.triggeredWindows[getWindowKey(tw, *slot.End)].snapshotData[k].Data == result[k].Data && tw.triggeredWindows[getWindowKey(tw, *slot.End)].snapshotData[k].Timestamp == result[k].Timestamp && tw.triggeredWindows[getWindowKey(tw, *slot.End)].snapshotData[k].Slot == slot)
   loop 1 invariant resultData == stampAll(arr($s), $i, slot)
   loop 2 invariant resultData == rowsInFrom(stampAll(arr(old(tw.triggeredWindows[getWindowKey(tw, *slot.End)].snapshotData)), ite(dom(tw.triggeredWindows, getWindowKey(tw, *slot.End)), len(old(tw.triggeredWindows[getWindowKey(tw, *slot.End)].snapshotData)), 0), slot), arr($s), $i, *slot.Start, *slot.End, slot)
   loop 2 invariant kept == rowsOut(arr($s), $i, *slot.Start, *slot.End)
+  loop 2 invariant tw.currentSlot != nil && rowsNotBefore(tw.data, *tw.currentSlot.Start) ==> rowsNotBefore(kept, *tw.currentSlot.Start)
   loop 3 invariant len(windowInfo.snapshotData) == len(resultData) && windowInfo != nil
   loop 3 invariant forall(k, 0, $i, windowInfo.snapshotData[k].Data == resultData[k].Data && windowInfo.snapshotData[k].Timestamp == resultData[k].Timestamp && windowInfo.snapshotData[k].Slot == slot)
 
 func (*TumblingWindow).handleLateData
   props C02
   held tw.mu
-  requires twInv(tw)
+  requires twInv(tw) && twNoStranded(tw)
   modifies *
   ensures still-locked: held(tw.mu) && wheld(tw.mu)
-  ensures inv: twInv(tw)
-  loop 1 invariant held(tw.mu) && wheld(tw.mu) && twInv(tw)
+  ensures inv: twInv(tw) && twNoStranded(tw)
+  loop 1 invariant held(tw.mu) && wheld(tw.mu) && twInv(tw) && twNoStranded(tw)
 
 func (*TumblingWindow).closeExpiredWindows
   props C02
@@ -172,6 +189,10 @@ func (*TumblingWindow).closeExpiredWindows
   ensures expiry-rule: forallv(k, "", dom(tw.triggeredWindows, k) <==> old(dom(tw.triggeredWindows, k)) && watermarkTime < old(tw.triggeredWindows[k].closeTime))
   ensures survivors-unchanged: forallv(k, "", dom(tw.triggeredWindows, k) ==> tw.triggeredWindows[k] == old(tw.triggeredWindows[k]))
   ensures inv: twInv(tw)
+  ensures bound-preserved: tw.currentSlot != nil && rowsNotBefore(old(tw.data), *tw.currentSlot.Start) ==> rowsNotBefore(tw.data, *tw.currentSlot.Start)
+  ensures never-grows: len(tw.data) <= len(old(tw.data))
+  loop 2 invariant tw.currentSlot != nil && rowsNotBefore(tw.data, *tw.currentSlot.Start) ==> rowsNotBefore(newData, *tw.currentSlot.Start)
+  loop 2 invariant len(newData) <= $i
   loop 1 invariant forallv(k, "", dom(tw.triggeredWindows, k) <==> old(dom(tw.triggeredWindows, k)) && !($visited[k] && watermarkTime >= old(tw.triggeredWindows[k].closeTime)))
   loop 1 invariant forallv(k, "", dom(tw.triggeredWindows, k) ==> tw.triggeredWindows[k] == old(tw.triggeredWindows[k]))
   loop 1 invariant forall(j, 0, len(expiredWindows), expiredWindows[j] != nil && slotOK(expiredWindows[j], tw.size))
@@ -181,7 +202,10 @@ func (*TumblingWindow).checkAndTriggerWindows
   acquires tw.mu
   modifies *
   before extractWindowDataLocked fire-only-closed-windows: *tw.currentSlot.End <= watermarkTime
-  loop 1 invariant held(tw.mu) && wheld(tw.mu) && twInv(tw)
+  ensures caught-up: tw.initialized && tw.currentSlot != nil ==> *tw.currentSlot.End > watermarkTime
+  ensures allowance-expired-windows-closed: old(tw.initialized) && old(tw.currentSlot) != nil ==> forallv(k, "", dom(tw.triggeredWindows, k) ==> watermarkTime < tw.triggeredWindows[k].closeTime)
+  loop 1 invariant held(tw.mu) && wheld(tw.mu) && twInv(tw) && twNoStranded(tw)
+  loop 2 invariant !hasData ==> forall(k, 0, $i, !(*tw.currentSlot.Start <= $s[k].Timestamp && $s[k].Timestamp < *tw.currentSlot.End))
 @*/
 
 /*@
@@ -200,9 +224,10 @@ func (*TumblingWindow).Add
   ensures late-dropped: tw.config.TimeCharacteristic == "EventTime" && second(extractTimestamp(data, tw.config.TsProp, tw.config.TimeUnit)) && $late && !inSlot(tw.currentSlot, extractTimestamp(data, tw.config.TsProp, tw.config.TimeUnit)) && tw.config.AllowedLateness <= 0 ==> seqeq(tw.data, old(tw.data))
   ensures dropped-only-if-late: tw.config.TimeCharacteristic == "EventTime" && second(extractTimestamp(data, tw.config.TsProp, tw.config.TimeUnit)) && tw.config.AllowedLateness <= 0 && len(tw.data) == len(old(tw.data)) ==> $late
   ensures first-event-seats-aligned-slot: tw.config.TimeCharacteristic == "EventTime" && second(extractTimestamp(data, tw.config.TsProp, tw.config.TimeUnit)) && !old(tw.initialized) && tw.config.AllowedLateness <= 0 ==> tw.initialized && tw.currentSlot != nil && *tw.currentSlot.Start == alignWindowStart(extractTimestamp(data, tw.config.TsProp, tw.config.TimeUnit), tw.size)
-  ensures slot-never-moved-by-ingest: old(tw.initialized) && tw.config.AllowedLateness <= 0 ==> tw.currentSlot == old(tw.currentSlot) && tw.initialized
+  ensures accepted-row-never-before-current-interval: tw.config.TimeCharacteristic == "EventTime" && second(extractTimestamp(data, tw.config.TsProp, tw.config.TimeUnit)) && !$late && tw.config.AllowedLateness <= 0 ==> tw.currentSlot != nil && extractTimestamp(data, tw.config.TsProp, tw.config.TimeUnit) >= *tw.currentSlot.Start
+  ensures slot-moves-only-back-for-on-time-earlier-event: old(tw.initialized) && tw.config.AllowedLateness <= 0 ==> tw.initialized && (tw.currentSlot == old(tw.currentSlot) || (tw.config.TimeCharacteristic == "EventTime" && extractTimestamp(data, tw.config.TsProp, tw.config.TimeUnit) < *old(tw.currentSlot).Start && *tw.currentSlot.Start == alignWindowStart(extractTimestamp(data, tw.config.TsProp, tw.config.TimeUnit), tw.size)))
   ensures processing-time-always-buffered: tw.config.TimeCharacteristic != "EventTime" && second(extractTimestamp(data, tw.config.TsProp, tw.config.TimeUnit)) ==> appended(tw.data, old(tw.data), extractTimestamp(data, tw.config.TsProp, tw.config.TimeUnit), data)
-  loop 1 invariant held(tw.mu) && wheld(tw.mu) && twInv(tw)
+  loop 1 invariant held(tw.mu) && wheld(tw.mu) && twInv(tw) && twNoStranded(tw)
 @*/
 
 /*@
@@ -235,9 +260,186 @@ func (*TumblingWindow).Trigger
   acquires tw.mu
   modifies *
   loop 1 invariant newData == rowsFrom(arr($s), $i, nextStart)
+  loop 1 invariant rowsNotBefore(newData, nextStart)
   loop 2 invariant resultData == rowsIn(arr($s), $i, *tw.currentSlot.Start, *tw.currentSlot.End, tw.currentSlot)
   before Unlock batch-is-current-interval: len(resultData) > 0 ==> resultData == rowsIn(arr(old(tw.data)), len(old(tw.data)), *old(tw.currentSlot).Start, *old(tw.currentSlot).End, old(tw.currentSlot))
   before Unlock later-rows-kept: len(resultData) > 0 ==> tw.data == rowsFrom(arr(old(tw.data)), len(old(tw.data)), *old(tw.currentSlot).End)
   before Unlock advances-one-interval: len(resultData) > 0 ==> tw.currentSlot != nil && *tw.currentSlot.Start == *old(tw.currentSlot).End && *tw.currentSlot.End == *old(tw.currentSlot).End + tw.size
   before Unlock event-time-noop: tw.config.TimeCharacteristic == "EventTime" ==> tw.data == old(tw.data) && tw.currentSlot == old(tw.currentSlot)
+@*/
+
+/*@
+// ---------------------------------------------------------------- sliding window (C08, C02)
+guarded_by SlidingWindow.mu: data, currentSlot, initialized, triggeredWindows, callback
+immutable SlidingWindow: config, size, slide
+monitor SlidingWindow.mu inv swInv
+
+pred swInv(sw) := sw.size > 0 && sw.slide > 0
+  && (sw.initialized ==> sw.currentSlot != nil)
+  && (sw.currentSlot != nil ==> slotOK(sw.currentSlot, sw.size) && *sw.currentSlot.Start % sw.slide == 0)
+  && sw.triggeredWindows != nil
+  && forallv(k, "", dom(sw.triggeredWindows, k) ==> sw.triggeredWindows[k] != nil && slotOK(sw.triggeredWindows[k].slot, sw.size))
+
+func (*SlidingWindow).createSlot
+  props C08
+  requires sw.slide > 0
+  ensures fresh: fresh(result)
+  ensures shape: slotOK(result, sw.size)
+  ensures slide-aligned: *result.Start % sw.slide == 0
+  ensures not-after-event: *result.Start <= t && t < *result.Start + sw.slide
+
+func (*SlidingWindow).createSlotFromStart
+  props C08
+  ensures fresh: fresh(result)
+  ensures shape: slotOK(result, sw.size)
+  ensures start: *result.Start == start
+
+func (*SlidingWindow).NextSlot
+  props C08
+  held sw.mu
+  requires sw.currentSlot != nil ==> sw.currentSlot.Start != nil && sw.currentSlot.End != nil
+  ensures nil: sw.currentSlot == nil ==> result == nil
+  ensures fresh: sw.currentSlot != nil ==> fresh(result)
+  ensures advances-by-slide: sw.currentSlot != nil ==> result.Start != nil && result.End != nil && *result.Start == *sw.currentSlot.Start + sw.slide && *result.End == *sw.currentSlot.End + sw.slide
+  ensures alignment-preserved: sw.currentSlot != nil && sw.slide > 0 && *sw.currentSlot.Start % sw.slide == 0 ==> *result.Start % sw.slide == 0
+
+func (*SlidingWindow).dropLastRow
+  props C08 C02
+  held sw.mu
+  modifies sw.data
+  ensures nonempty: len(old(sw.data)) > 0 ==> len(sw.data) == len(old(sw.data)) - 1
+  ensures prefix: forall(i, 0, len(sw.data), sw.data[i] == old(sw.data)[i])
+  ensures empty: len(old(sw.data)) == 0 ==> len(sw.data) == 0
+
+func (*SlidingWindow).getWindowKey
+  props C02
+  option pure
+
+func (*SlidingWindow).sendResult
+  props C08
+  ensures true
+
+func (*SlidingWindow).extractWindowDataLocked
+  props C08
+  held sw.mu
+  requires slot != nil ==> slot.Start != nil && slot.End != nil
+  modifies sw.data
+  ensures no-slot: slot == nil ==> len(result) == 0 && sw.data == old(sw.data)
+  ensures batch-is-interval: slot != nil && len(rowsIn(arr(old(sw.data)), len(old(sw.data)), *slot.Start, *slot.End, slot)) > 0 ==> result == rowsIn(arr(old(sw.data)), len(old(sw.data)), *slot.Start, *slot.End, slot)
+  ensures evict-only-below-next-start: slot != nil && len(rowsIn(arr(old(sw.data)), len(old(sw.data)), *slot.Start, *slot.End, slot)) > 0 ==> sw.data == rowsFrom(arr(old(sw.data)), len(old(sw.data)), *slot.Start + sw.slide)
+  ensures empty-interval-keeps-all: slot != nil && len(rowsIn(arr(old(sw.data)), len(old(sw.data)), *slot.Start, *slot.End, slot)) == 0 ==> len(result) == 0 && sw.data == old(sw.data)
+  loop 1 invariant resultData == rowsIn(arr($s), $i, *slot.Start, *slot.End, slot)
+  loop 2 invariant newData == rowsFrom(arr($s), $i, nextWindowStart)
+
+func (*SlidingWindow).triggerSpecificWindowLocked
+  props C08
+  held sw.mu
+  requires swInv(sw)
+  requires slot != nil && slot.Start != nil && slot.End != nil
+  modifies *
+  ensures still-locked: held(sw.mu) && wheld(sw.mu)
+  ensures inv: swInv(sw)
+
+extern (*SlidingWindow).triggerLateUpdateLocked
+  props C02
+  held sw.mu
+  modifies *
+  ensures held(sw.mu) && wheld(sw.mu)
+  ensures swInv(sw)
+
+func (*SlidingWindow).handleLateData
+  props C02
+  held sw.mu
+  requires swInv(sw)
+  modifies *
+  ensures still-locked: held(sw.mu) && wheld(sw.mu)
+  ensures inv: swInv(sw)
+  loop 1 invariant held(sw.mu) && wheld(sw.mu) && swInv(sw)
+
+func (*SlidingWindow).closeExpiredWindows
+  props C02
+  held sw.mu
+  requires swInv(sw)
+  modifies mapof(sw.triggeredWindows)
+  ensures expiry-rule: forallv(k, "", dom(sw.triggeredWindows, k) <==> old(dom(sw.triggeredWindows, k)) && watermarkTime < old(sw.triggeredWindows[k].closeTime))
+  ensures survivors-unchanged: forallv(k, "", dom(sw.triggeredWindows, k) ==> sw.triggeredWindows[k] == old(sw.triggeredWindows[k]))
+  ensures inv: swInv(sw)
+  loop 1 invariant forallv(k, "", dom(sw.triggeredWindows, k) <==> old(dom(sw.triggeredWindows, k)) && !($visited[k] && watermarkTime >= old(sw.triggeredWindows[k].closeTime)))
+  loop 1 invariant forallv(k, "", dom(sw.triggeredWindows, k) ==> sw.triggeredWindows[k] == old(sw.triggeredWindows[k]))
+
+func (*SlidingWindow).checkAndTriggerWindows
+  props C08 C02
+  acquires sw.mu
+  modifies *
+  before triggerSpecificWindowLocked fire-only-closed-windows: *slotToTrigger.End <= watermarkTime
+  ensures caught-up: sw.initialized && sw.currentSlot != nil ==> *sw.currentSlot.End > watermarkTime
+  ensures allowance-expired-windows-closed: old(sw.initialized) && old(sw.currentSlot) != nil ==> forallv(k, "", dom(sw.triggeredWindows, k) ==> watermarkTime < sw.triggeredWindows[k].closeTime)
+  before triggerSpecificWindowLocked advanced-before-firing: sw.currentSlot != nil && *sw.currentSlot.Start == *slotToTrigger.Start + sw.slide
+  loop 1 invariant held(sw.mu) && wheld(sw.mu) && swInv(sw)
+
+func (*SlidingWindow).Add
+  props C08 C02
+  acquires sw.mu
+  modifies *
+  observe late := IsEventTimeLate
+  ensures unplaceable-dropped: sw.config.TimeCharacteristic == "EventTime" && !second(extractTimestamp(data, sw.config.TsProp, sw.config.TimeUnit)) ==> sw.data == old(sw.data) && sw.currentSlot == old(sw.currentSlot) && sw.initialized == old(sw.initialized)
+  ensures on-time-buffered: sw.config.TimeCharacteristic == "EventTime" && second(extractTimestamp(data, sw.config.TsProp, sw.config.TimeUnit)) && !$late ==> appended(sw.data, old(sw.data), extractTimestamp(data, sw.config.TsProp, sw.config.TimeUnit), data)
+  ensures late-in-current-kept: sw.config.TimeCharacteristic == "EventTime" && second(extractTimestamp(data, sw.config.TsProp, sw.config.TimeUnit)) && $late && old(sw.initialized) && old(inSlot(sw.currentSlot, extractTimestamp(data, sw.config.TsProp, sw.config.TimeUnit))) ==> appended(sw.data, old(sw.data), extractTimestamp(data, sw.config.TsProp, sw.config.TimeUnit), data)
+  ensures late-dropped: sw.config.TimeCharacteristic == "EventTime" && second(extractTimestamp(data, sw.config.TsProp, sw.config.TimeUnit)) && $late && !inSlot(sw.currentSlot, extractTimestamp(data, sw.config.TsProp, sw.config.TimeUnit)) && sw.config.AllowedLateness <= 0 ==> seqeq(sw.data, old(sw.data))
+  ensures dropped-only-if-late: sw.config.TimeCharacteristic == "EventTime" && second(extractTimestamp(data, sw.config.TsProp, sw.config.TimeUnit)) && sw.config.AllowedLateness <= 0 && len(sw.data) == len(old(sw.data)) ==> $late
+  ensures first-event-seats-slide-aligned-slot: sw.config.TimeCharacteristic == "EventTime" && second(extractTimestamp(data, sw.config.TsProp, sw.config.TimeUnit)) && !old(sw.initialized) && sw.config.AllowedLateness <= 0 ==> sw.initialized && sw.currentSlot != nil && *sw.currentSlot.Start == alignWindowStart(extractTimestamp(data, sw.config.TsProp, sw.config.TimeUnit), sw.slide)
+  ensures accepted-row-never-before-current-interval: sw.config.TimeCharacteristic == "EventTime" && second(extractTimestamp(data, sw.config.TsProp, sw.config.TimeUnit)) && !$late && sw.config.AllowedLateness <= 0 && sw.slide <= sw.size ==> sw.currentSlot != nil && extractTimestamp(data, sw.config.TsProp, sw.config.TimeUnit) >= *sw.currentSlot.Start
+  ensures slot-moves-only-back-for-on-time-earlier-event: old(sw.initialized) && sw.config.AllowedLateness <= 0 ==> sw.initialized && (sw.currentSlot == old(sw.currentSlot) || (sw.config.TimeCharacteristic == "EventTime" && extractTimestamp(data, sw.config.TsProp, sw.config.TimeUnit) < *old(sw.currentSlot).Start && *sw.currentSlot.Start == alignWindowStart(extractTimestamp(data, sw.config.TsProp, sw.config.TimeUnit), sw.slide) && extractTimestamp(data, sw.config.TsProp, sw.config.TimeUnit) < *sw.currentSlot.End))
+  loop 1 invariant held(sw.mu) && wheld(sw.mu) && swInv(sw)
+
+func (*SlidingWindow).SetCallback
+  props C08
+  acquires sw.mu
+  modifies sw.callback
+  ensures sw.callback == callback
+
+lemma C08-eviction-safe
+  props C08
+  var ts Int
+  var start Int
+  var slide Int
+  var size Int
+  var k Int
+  assume (> slide 0)
+  assume (> size 0)
+  assume (>= k 1)
+  assume (< ts (+ start slide))
+  goal (not (and (<= (+ start (* k slide)) ts) (< ts (+ (+ start (* k slide)) size))))
+
+lemma C08-membership-needs-only-later-rows
+  props C08
+  var ts Int
+  var start Int
+  var slide Int
+  var size Int
+  var k Int
+  assume (> slide 0)
+  assume (> size 0)
+  assume (>= k 1)
+  assume (and (<= (+ start (* k slide)) ts) (< ts (+ (+ start (* k slide)) size)))
+  goal (>= ts (+ start slide))
+@*/
+
+/*@
+func (*SlidingWindow).Trigger
+  props C08
+  acquires sw.mu
+  modifies *
+  before Unlock event-time-noop: sw.config.TimeCharacteristic == "EventTime" ==> sw.data == old(sw.data) && sw.currentSlot == old(sw.currentSlot)
+  before Unlock advances-by-one-slide: sw.currentSlot != old(sw.currentSlot) ==> sw.currentSlot != nil && *sw.currentSlot.Start == *old(sw.currentSlot).Start + sw.slide && *sw.currentSlot.End == *old(sw.currentSlot).End + sw.slide
+
+func (*SlidingWindow).Reset
+  props C08 C02
+  modifies *
+  ensures cleared: !sw.initialized && sw.currentSlot == nil && len(sw.data) == 0
+
+func NewSlidingWindow
+  props C08 C02
+  modifies *
+  ensures inv: result1 == nil ==> result0 != nil && swInv(result0) && !result0.initialized && len(result0.data) == 0
 @*/
